@@ -116,7 +116,16 @@ def replay_program(case, cid, seed, qn_size):
         ids_before = {i: id(o) for i, o in regs.items()}
         try:
             A, B = regs[a], regs[b]
-            if op == "Mul":
+            # operands that are sums may be handed over as PLAIN lists of Op (model.ham_terms, a slice, a comprehension):
+            # Op * list, OpSum * list, list * Op (Op.__rmul__), Op + list, OpSum + list are the supported forms
+            plain = int(rng.integers(3))
+            if op == "Mul" and plain == 1 and isinstance(B, OpSum):
+                res = A * list(B)
+            elif op == "Mul" and plain == 2 and isinstance(A, OpSum) and not isinstance(B, OpSum):
+                res = list(A) * B
+            elif op == "Add" and plain == 1 and isinstance(B, OpSum):
+                res = A + list(B)
+            elif op == "Mul":
                 res = A * B
             elif op == "MulScalar":
                 res = A * scalar_variant(k, rng)
